@@ -79,6 +79,139 @@ def branch_attr_reads(fi: FuncInfo, ci: ClassInfo, atoms: Dict[str, bool], repo:
     return out
 
 
+def _canonical_sets(cname: str):
+    """The constellations of the scheme by definition (label order is irrelevant for a ranking comparison)."""
+    import cmath
+    import math
+
+    def psk(M, off=0.0):
+        return [cmath.exp(1j * (2 * math.pi * k / M + off)) for k in range(M)]
+
+    def grid(k):
+        lv = [complex(2 * i - (k - 1)) for i in range(k)]
+        return [complex(a.real, b.real) for a in lv for b in lv]
+
+    if cname == "Pi4QPSKDemodulator":
+        return [psk(4, math.pi / 4), psk(4, 0.0)]
+    if cname in ("PSKDemodulator", "DPSKDemodulator", "DBPSKDemodulator", "DQPSKDemodulator"):
+        return [psk(4), psk(8), psk(8, math.pi / 8), psk(16)]
+    if cname == "QPSKDemodulator":
+        return [psk(4, math.pi / 4)]
+    if cname == "QAMDemodulator":
+        return [grid(2), grid(4), grid(8)]
+    if cname == "PAMDemodulator":
+        return [[complex(2 * i - (k - 1)) for i in range(k)] for k in (2, 4, 8)]
+    return None
+
+
+def metric_ranking_verdict(ci: ClassInfo, fi: FuncInfo, node: ast.AST, which: str):
+    """Numeric fallback for a decision metric the polarity engine does not recognise: the metric expression (local names
+    inlined) is evaluated with the checker's own arithmetic for received points on a grid, first against a generic
+    irregular constellation (agreement with the Euclidean ranking there means a monotone transform of the distance), then
+    against the scheme's constellations by definition (a separable metric is exact on a product grid).  A point where the
+    selected index is not a Euclidean-nearest point is the witness of a violation."""
+    from ..constfold import Folder, Unfoldable
+
+    arg = node.args[0] if isinstance(node, ast.Call) and node.args else None
+    if arg is None and isinstance(node, ast.Call) and isinstance(node.func, ast.Attribute):
+        arg = node.func.value
+    if arg is None:
+        return UNDECIDED, "argument of the selection not found"
+    defs: Dict[str, List[ast.AST]] = {}
+    for st in ast.walk(fi.node):
+        if isinstance(st, ast.Assign) and len(st.targets) == 1 and isinstance(st.targets[0], ast.Name):
+            defs.setdefault(st.targets[0].id, []).append(st.value)
+    params = [p for p in fi.params if p != "self"]
+    recv = params[0] if params else "y"
+    CONS = {"constellation", "qpsk", "qpsk_rotated", "points", "const", "ref_points"}
+
+    def variants(e: ast.AST, depth=0) -> List[ast.AST]:
+        """all inlinings of local names (one per reaching definition), bounded"""
+        names = [x for x in ast.walk(e) if isinstance(x, ast.Name) and x.id in defs and x.id != recv and x.id not in CONS]
+        if not names or depth > 6:
+            return [e]
+        nm = names[0].id
+        out = []
+        for d in defs[nm][:3]:
+            if any(isinstance(x, ast.Name) and x.id == nm for x in ast.walk(d)):
+                continue
+
+            class Sub(ast.NodeTransformer):
+                def visit_Name(self, n_):
+                    return ast.copy_location(ast.parse(unparse(d), mode="eval").body, n_) if n_.id == nm else n_
+
+            out += variants(Sub().visit(ast.parse(unparse(e), mode="eval").body), depth + 1)
+        return out[:8] or [e]
+
+    class F(Folder):
+        def fold(self, n_):
+            # anything rooted at the received tensor is the received point
+            b = n_
+            while isinstance(b, (ast.Subscript, ast.Attribute, ast.Call)):
+                if isinstance(b, ast.Attribute) and b.attr in ("real", "imag"):
+                    break
+                if isinstance(b, ast.Call):
+                    if isinstance(b.func, ast.Attribute) and b.func.attr in ("unsqueeze", "squeeze", "reshape", "view", "to", "clone", "contiguous") and not (call_name(b) or "").startswith("torch."):
+                        b = b.func.value
+                        continue
+                    break
+                b = b.value
+            if isinstance(b, ast.Name) and b.id == recv and b is not n_ or (isinstance(n_, ast.Name) and n_.id == recv):
+                return self.names[recv]
+            if isinstance(n_, ast.Call) and isinstance(n_.func, ast.Attribute) and n_.func.attr in ("expand", "expand_as", "unsqueeze", "view", "reshape", "to", "contiguous") and not (call_name(n_) or "").startswith("torch."):
+                return self.fold(n_.func.value)  # shape bookkeeping: the values are flattened below
+            if isinstance(n_, ast.Attribute) and attr_chain(n_) in ("self.constellation", "self.modulator.constellation", "self.modulator.qpsk", "self.modulator.qpsk_rotated"):
+                return self.names["constellation"]
+            return super().fold(n_)
+
+    exprs = variants(arg)
+    grid_pts = [complex(a * 0.37 - 2.6, b * 0.41 - 2.7) for a in range(15) for b in range(14)]
+    generic = [complex(0.9, 0.2), complex(-0.4, 1.3), complex(-1.1, -0.6), complex(0.3, -1.2), complex(1.7, 1.1), complex(-1.9, 0.8), complex(0.1, 0.15)]
+
+    def compare(cons):
+        for z in grid_pts:
+            d2 = [abs(z - c) for c in cons]
+            best = min(d2)
+            if sorted(d2)[1] - best < 1e-6:
+                continue
+            for e in exprs:
+                names = {recv: z, "constellation": cons}
+                for k in CONS:
+                    names[k] = cons
+                v = F(names).fold(e)
+                flat = []
+
+                def fl(t):
+                    if isinstance(t, list):
+                        for u in t:
+                            fl(u)
+                    else:
+                        flat.append(t)
+
+                fl(v)
+                if len(flat) != len(cons) or any(isinstance(t, complex) for t in flat):
+                    raise Unfoldable("metric does not give one real value per constellation point")
+                pick = flat.index(min(flat) if which == "argmin" else max(flat))
+                if d2[pick] - best > 1e-9:
+                    return z, cons[pick], cons[d2.index(best)], e
+        return None
+
+    try:
+        if compare(generic) is None:
+            return OK, "unlisted metric; its ranking equals the Euclidean ranking on a generic irregular constellation (monotone transform of the distance)"
+        sets = _canonical_sets(ci.name)
+        if sets is None:
+            return UNDECIDED, "the metric is not a monotone transform of the Euclidean distance and the scheme's constellation is not tabulated"
+        for cons in sets:
+            w = compare(cons)
+            if w is not None:
+                z, got, want, e = w
+                return VIOLATION, f"metric `{unparse(e)[:80]}` is not the Euclidean distance: for the received point {z:.3f} it selects {got:.3f} although {want:.3f} is nearer (constellation of {len(cons)} points)"
+        return OK, f"unlisted metric; not a monotone transform of the distance in general, but its ranking equals the Euclidean one on the scheme's {len(sets)} constellation(s)"
+    except (Unfoldable, TypeError, ValueError, IndexError, SyntaxError) as exc:
+        return UNDECIDED, f"metric not evaluable ({exc})"
+
+
 def run(repo: Repo, rep: Report, tier: str) -> None:
     demods = [c for c in registered(repo, "register_demodulator") if c.name not in SKIP]
     n_soft = n_hard = n_scale = 0
@@ -191,7 +324,11 @@ def run(repo: Repo, rep: Report, tier: str) -> None:
                 else:
                     rep.violation("HARD-NEAREST", fi, construct, f"`{which}` of a metric that is {pe} in the distance selects the farthest point", node=node)
             elif is_top(tv) or not tv.is_const:
-                rep.undecided("HARD-NEAREST", fi, construct, f"the metric is not recognised as a distance to the constellation ({tv.show()})", trace=hi.unknown_ops[:5], node=node)
+                st_, why_ = metric_ranking_verdict(ci, fi, node, which)
+                if st_ == UNDECIDED:
+                    rep.undecided("HARD-NEAREST", fi, construct, f"the metric is not recognised as a distance to the constellation ({tv.show()}); {why_}", trace=hi.unknown_ops[:5], node=node)
+                else:
+                    rep.add("HARD-NEAREST", fi, construct, st_, why_, node=node)
             else:
                 rep.undecided("HARD-NEAREST", fi, construct, f"the metric does not depend on the received value ({tv.show()})", node=node)
         if not sites:
@@ -236,6 +373,43 @@ def run(repo: Repo, rep: Report, tier: str) -> None:
 
     rule_cache_key(repo, rep, demods)
     rule_purity(repo, rep, demods)
+    # ---------------- NV-ALIGN: a per-symbol noise variance expanded to one entry per LLR must follow the symbol-major
+    # LLR layout (LLR j belongs to symbol j // bits_per_symbol)
+    n_align = 0
+    for ci in demods:
+        for meth in ci.methods.values():
+            if "noise_var" not in meth.params:
+                continue
+            tainted = {"noise_var"}
+            changed = True
+            assigns = [s_ for s_ in ast.walk(meth.node) if isinstance(s_, ast.Assign)]
+            while changed:
+                changed = False
+                for s_ in assigns:
+                    if any(isinstance(x, ast.Name) and x.id in tainted for x in ast.walk(s_.value)):
+                        for t in s_.targets:
+                            if isinstance(t, ast.Name) and t.id not in tainted:
+                                tainted.add(t.id)
+                                changed = True
+            for c in ast.walk(meth.node):
+                if not isinstance(c, ast.Call):
+                    continue
+                short = (call_name(c) or "").split(".")[-1]
+                if short not in ("repeat", "tile", "repeat_interleave"):
+                    continue
+                recv_ = c.args[0] if (call_name(c) or "").startswith("torch.") and c.args else (c.func.value if isinstance(c.func, ast.Attribute) else None)
+                if recv_ is None or not any(isinstance(x, ast.Name) and x.id in tainted for x in ast.walk(recv_)):
+                    continue
+                n_align += 1
+                factors = [a for a in (c.args[1:] if (call_name(c) or "").startswith("torch.") else c.args)]
+                last = factors[-1] if factors else None
+                if short == "repeat_interleave":
+                    rep.ok("NV-ALIGN", meth, f"{ci.name}: {unparse(c)[:90]}", "each symbol's variance is repeated for its own bits (symbol-major, like the LLRs)", node=c)
+                elif isinstance(last, ast.Constant) and last.value == 1:
+                    rep.ok("NV-ALIGN", meth, f"{ci.name}: {unparse(c)[:90]}", "no tiling along the symbol axis", node=c, nontrivial=False)
+                else:
+                    rep.violation("NV-ALIGN", meth, f"{ci.name}: {unparse(c)[:90]}", "tiling the per-symbol noise variance along the last axis orders it n0 n1 ... n0 n1 ..., while the LLRs are stored symbol by symbol (n0 n0 ... n1 n1 ...): LLR j is scaled by the variance of symbol j mod N instead of j // bits_per_symbol (use repeat_interleave)", node=c)
+    rep.ok("NV-ALIGN", "kaira::demodulators", "expansions of a per-symbol noise variance to the LLR layout", f"{n_align} site(s) examined", nontrivial=False)
     rep.floor("soft returns decided", n_soft, 9)
     rep.floor("soft scaling laws", n_scale, 9)
     rep.floor("hard decision sites", n_hard, 9)
